@@ -137,7 +137,9 @@ type Exec struct {
 	alloc0    *Term
 	curIns    ssa.Instruction
 	curFr     *Frame
+	curSt     *State
 	extraAxioms []*Term
+	axiomSeen map[string]bool
 	qcount    int
 	ghostVars map[string]func(*specScope) Value
 	specBuiltins map[string]func(*specScope, *ECall) Value
@@ -344,6 +346,7 @@ func (x *Exec) val(fr *Frame, v ssa.Value) Value {
 	case *ssa.Const:
 		return x.constValue(c)
 	case *ssa.Global:
+		x.touchGlobal(c)
 		return x.globalAddr(c)
 	case *ssa.Function:
 		return Value{T: c.Type(), L: []*Term{IntLit(int64(1000000 + x.c.typeTag(types.NewPointer(types.Typ[types.Bool]))))}, Fn: &FuncVal{Fn: c}}
@@ -546,7 +549,7 @@ func (x *Exec) runInstrs(fr *Frame, st *State, b *ssa.BasicBlock, start int) (ne
 	for i := start; i < len(b.Instrs); i++ {
 		ins := b.Instrs[i]
 		x.Stats.Instrs++
-		x.curIns, x.curFr = ins, fr
+		x.curIns, x.curFr, x.curSt = ins, fr, st
 		switch in := ins.(type) {
 		case *ssa.Phi:
 			continue
